@@ -13,6 +13,12 @@
 (* (budgets, rates offered before, deadline, an optional anchor input with   *)
 (* unconfirmed-parent info pw/pf at a rate below the floor, inside the ramp  *)
 (* or above the ceiling); the executor drives the real UtxoSweeper with it.  *)
+(* A request may come from a node with an aux sweeper (custom channels): xo  *)
+(* is the value of the extra output it adds to every sweep tx (172 wu, part  *)
+(* of the weight of the tx that is built) and xb its extra budget.  The      *)
+(* configured maximum / the ending rate of a standalone function may lie     *)
+(* BELOW the relay fee (a mempool-min-fee spike), with conf targets on both  *)
+(* sides of 1008 (where the relay fee itself is the starting rate).          *)
 (* Main = TRUE keeps the generated inputs inside the domain on which the     *)
 (* code is expected to satisfy the property (see the deviations in SweepFee);*)
 (* the triggers of the deviations are replayed from spec/SweepFee/directed.  *)
@@ -48,7 +54,6 @@ Shapes == { <<1, 0, 0, 294>>, <<2, 1, 0, 330>>, <<1, 0, 1, 294>>, <<8, 0, 0, 294
 H0 == 1000
 
 ReqInMain(p) ==
-  /\ p.relay <= CeilingOf(p)
   /\ p.sopt < 0 \/ (p.sopt >= p.relay /\ p.sopt <= CeilingOf(p))
   /\ ~CeilTriggerOf(p)
 
@@ -67,7 +72,8 @@ GNext ==
            LET s == r + s0 IN
            \E e \in {Pick({-1, r - 1, r, s, s + d + 5, s + d}, N)} :
            \E so \in {IF Main THEN s ELSE Pick({s, s, s + d + 1, s + d + 3000, r - 1}, N)} :
-           LET p == [maxrate |-> s + d, ct |-> c, sopt |-> IF ex THEN -1 ELSE so,
+           \E mr \in {Pick({s + d, s + d, s + d, s + d, r - 3, r \div 2}, N)} :  \* ... or an ending rate below the relay fee
+           LET p == [maxrate |-> mr, ct |-> c, sopt |-> IF ex THEN -1 ELSE so,
                      est |-> IF ex THEN e ELSE 0, relay |-> r] IN
            \E dl \in DeltaChoices(p.maxrate, p.ct, p.sopt, p.est, p.relay) :
               New(p, dl) /\ Rec([a |-> "New", maxrate |-> p.maxrate, ct |-> p.ct, sopt |-> p.sopt,
@@ -80,14 +86,16 @@ GNext ==
         /\ \E sh \in {Pick(Shapes, N)} : \E r \in {Pick(GRelays, N)} :
            \E e \in {Pick({r + 47, 2000, 50000}, N)} :            \* the budget rate aimed at
            \E pa \in {Pick({0, 0, 1, 2, 3, 4}, N)} :                \* unconfirmed parent: none / class 1..4
+           \E xo \in {IF pa = 0 THEN Pick({0, 0, 0, 330, 1000}, N) ELSE 0} :   \* aux sweeper: extra output / none
+           \E xb \in {IF xo > 0 THEN Pick({0, 3, 40}, N) ELSE 0} :           \* ... and its extra budget
            LET na == IF pa = 0 THEN 0 ELSE 1
-               w == Weight(sh[1], sh[2], sh[3], na, sh[4]) IN
+               w == Weight(sh[1], sh[2], sh[3], na, sh[4]) + (IF xo > 0 THEN 172 ELSE 0) IN
            \E b \in {IF w = 2896 THEN Pick({181 * 5, 181 * 33, 181 * 801, FeeFor(e, w) + 1}, N)
                       ELSE FeeFor(e, w) + Pick(0..(w \div 1000 + 2), N)} :
-           \E mv \in {Pick({(e \div 2 + r) \div KwPerVb + 1, 1000}, N)} :     \* sweeper.maxfeerate, sat/vb
+           \E mv \in {Pick({(e \div 2 + r) \div KwPerVb + 1, (e \div 2 + r) \div KwPerVb + 1, 1000, 1000, 1, 3}, N)} : \* sweeper.maxfeerate, sat/vb (1, 3: below the relay fee)
            LET ro == sh[3] * 20000
                m  == KwPerVb * mv IN
-           \E ti \in {ro + 330 * na + Pick({b + 100000, FeeFor(e \div 2 + r, w) + 200, b + sh[4] - 1, b \div 2,
+           \E ti \in {ro + xo + 330 * na + Pick({b + 100000, FeeFor(e \div 2 + r, w) + 200, b + sh[4] - 1, b \div 2,
                                   FeeFor(r, w) + sh[4] - 150,          \* change below dust from the start
                                   FeeFor(r + 60, w) + sh[4] + 5}, N)} : \* ... from the second or third rate on
            \E c0 \in {Pick({0, 1, 2, 3, 5, 1009}, N)} :
@@ -110,13 +118,14 @@ GNext ==
                pf == CASE pa = 0 -> 0 [] pa = 1 -> 0 [] pa = 2 -> FeeFor(r \div 2, pw)
                        [] pa = 3 -> FeeFor((r + Min(e, m)) \div 2, pw) [] pa = 4 -> FeeFor(Min(e, m) + 1000, pw)
                q == SweepReq([maxvb |-> mv, relay |-> r, est |-> es],
-                             [weight |-> w, totalin |-> ti, reqout |-> ro, dust |-> sh[4], inbudget |-> b,
+                             [weight |-> w, totalin |-> ti, reqout |-> ro, dust |-> sh[4], inbudget |-> b - xb,
                               indeadline |-> H0 + c0, prevmax |-> IF sq > 0 THEN sq ELSE 0,
-                              pweight |-> pw, pfee |-> pf]) IN
+                              pweight |-> pw, pfee |-> pf, xout |-> xo, xbudget |-> xb]) IN
            /\ Main => ReqInMain(q)
            /\ Request(q)
            /\ Rec([a |-> "Req", nk |-> sh[1], nt |-> sh[2], nr |-> sh[3], budget |-> q.budget,
-                   maxrate |-> q.maxrate, relay |-> q.relay, totalin |-> q.totalin, reqout |-> q.reqout,
+                   maxrate |-> q.maxrate, relay |-> q.relay, totalin |-> q.totalin, reqout |-> ro,
+                   xout |-> xo, xbudget |-> xb,
                    dust |-> q.dust, deadline |-> q.deadline, sopt |-> q.sopt, est |-> q.est,
                    weight |-> q.weight, prevs |-> pv, agg |-> ag,
                    maxvb |-> mv, na |-> na, pw |-> pw, pf |-> pf])
